@@ -268,7 +268,7 @@ def r1_offset_exactly_once(ctx):
         else:
             ok = False
             what = "no other function writes the delivered-lines counter"
-        ctx.ob(f"{fi.module.relpath}:{x.lineno} {fi.qualname}", what, ok, u(x), key=f"C15-R1|counter-store|{fi.qualname}")
+        ctx.ob(f"{fi.module.relpath}:{x.lineno} {fi.qualname}", what, ok, u(x), key=f"C15-R1|counter-store|{fi.qualname}", definite=True)
     # snapshot before the reader call, reader call outside the try
     dr = ix.func(RD, "NpDataclassReader.read_chunk")
     g = CFG(dr.node)
